@@ -212,6 +212,88 @@ def r12_5(chk, tier, units=('jsonpath',)):
                     fn['n'], an, u.line, an), {'resets': sorted(r.line for r in resets)}, fn['q'])
     chk.require(n >= 2 * len(units), 'R12.5: only %d consumptions of a slice accumulator found' % n)
 
+JP_CMP = {'eq_operator': '==', 'ne_operator': '!=', 'lt_operator': '<', 'lte_operator': '<=', 'gt_operator': '>', 'gte_operator': '>='}
+JP_ARITH = {'plus_operator': '+', 'minus_operator': '-', 'mult_operator': '*', 'div_operator': '/'}
+# binding strength, weakest first (JSONPath filter grammar / ECMAScript): a lower number binds tighter in this implementation
+JP_PREC_ORDER = [('or_operator',), ('and_operator',), ('eq_operator', 'ne_operator'), ('lt_operator', 'lte_operator', 'gt_operator', 'gte_operator'),
+                 ('plus_operator', 'minus_operator'), ('mult_operator', 'div_operator', 'modulus_operator')]
+
+def r12_6(chk, facts):
+    """Filter operator table of token_evaluator.hpp: class name vs operator applied, operand order, type guards, precedence order."""
+    chk.rule('R12.6', 'filter operators: each comparison class applies the operator of its name to (lhs, rhs) in that order with true/false in the '
+                      'right arms; ordering comparisons are reached only with both operands numbers or both strings; arithmetic classes apply '
+                      'their own operator; precedence levels are ordered or < and < equality < relational < additive < multiplicative', floor=14)
+    classes = {}
+    for f in facts.functions:
+        if f.get('dep') or not f['file'].endswith('token_evaluator.hpp') or not f.get('cls'): continue
+        short = A.strip_targs(f['cls']).split('::')[-1]
+        if short in JP_CMP or short in JP_ARITH or any(short in t for t in JP_PREC_ORDER):
+            classes.setdefault(short, {}).setdefault(f['n'] if f.get('fk') != 'CXXConstructor' else '<ctor>', f)
+    chk.require(len(classes) >= 12, 'R12.6: only %d operator classes instantiated' % len(classes))
+    for short, fns in sorted(classes.items()):
+        ev = fns.get('evaluate')
+        if ev is None or ev.get('body') is None: continue
+        chk.analysed(ev)
+        pn = [p_['n'] for p_ in ev['params'][:2]]
+        g = C.CFG(ev['body'])
+        site = U.site(ev, 'operator')
+        problems = []
+        if short in JP_CMP:
+            want = JP_CMP[short]; found = 0
+            for nd in g.rpo:
+                if nd.kind != 'return': continue
+                for v in A.walk_no_lambda(nd.ast.get('val')):
+                    if v.get('k') != 'ConditionalOperator': continue
+                    c = G.comparison(v.get('cond'))
+                    if not c: continue
+                    found += 1
+                    op, l, r = c
+                    if op != want: problems.append('applies `%s` (line %s), the class is %s' % (op, v.get('l'), short))
+                    if [A.ref_name(l), A.ref_name(r)] != pn: problems.append('operands (%s, %s) at line %s are not (lhs, rhs)' % (A.ref_name(l), A.ref_name(r), v.get('l')))
+                    tv = [A.const(y) for y in A.walk(v.get('then')) if y.get('k') == 'CXXBoolLiteralExpr']; fv = [A.const(y) for y in A.walk(v.get('else')) if y.get('k') == 'CXXBoolLiteralExpr']
+                    if tv[:1] != [1] or fv[:1] != [0]: problems.append('true/false arms swapped at line %s' % v.get('l'))
+                    if want in ('<', '<=', '>', '>='):
+                        kinds = {}
+                        for a, lab, e in g.guards(nd):
+                            s2 = A.strip(a, casts=True)
+                            if s2 is not None and s2.get('k') in A.CALLS and A.callee_name(s2) in ('is_number', 'is_string') and lab is True:
+                                kinds.setdefault(A.callee_name(s2), set()).add(A.ref_name(s2.get('obj')))
+                        if not any(set(pn) <= v2 for v2 in kinds.values()):
+                            problems.append('the comparison at line %s is reached without both operands being numbers or both strings' % v.get('l'))
+            if not found: problems.append('no `lhs %s rhs ? true : false` return' % want)
+        if short in JP_ARITH:
+            want = JP_ARITH[short]; ops = set()
+            for x in A.walk_no_lambda(ev['body']):
+                if x.get('k') == 'BinaryOperator' and x.get('op') in ('+', '-', '*', '/', '%') and any(A.ref_name(y.get('obj')) in pn for y in A.calls_in(x)):
+                    ops.add(x['op'])
+            if ops != {want}: problems.append('applies %s, the class is %s' % (sorted(ops), short))
+        if problems: chk.fail('R12.6', site, ev['file'], ev['l'], '%s: %s' % (short, '; '.join(problems[:3])), None, ev['q'])
+        else: chk.ok('R12.6', site, {'class': short})
+    # precedence
+    prec = {}
+    for short, fns in classes.items():
+        ct = fns.get('<ctor>')
+        if ct is None: continue
+        for ini in ct.get('inits') or []:
+            for y in A.walk(ini.get('init')):
+                if y.get('k') in ('CXXConstructExpr',) and 'binary_operator' in (y.get('cq') or '') and y.get('args'):
+                    v = A.const(y['args'][0])
+                    if v is not None: prec[short] = v
+    chk.require(len(prec) >= 12, 'R12.6: precedence levels found for %d classes only' % len(prec))
+    levels = []
+    for tier_ in JP_PREC_ORDER:
+        vals = {prec[c] for c in tier_ if c in prec}
+        site = 'include/jsoncons_ext/jsonpath/token_evaluator.hpp precedence %s' % '/'.join(tier_)
+        if len(vals) != 1:
+            chk.fail('R12.6', site, 'include/jsoncons_ext/jsonpath/token_evaluator.hpp', 0, 'operators of one precedence class have levels %s' % sorted(vals), None); levels.append(None); continue
+        levels.append(vals.pop())
+        chk.ok('R12.6', site, {'level': levels[-1]})
+    clean = [v for v in levels if v is not None]
+    if clean != sorted(clean, reverse=True) or len(set(clean)) != len(clean):
+        chk.fail('R12.6', 'include/jsoncons_ext/jsonpath/token_evaluator.hpp precedence order', 'include/jsoncons_ext/jsonpath/token_evaluator.hpp', 0,
+                 'precedence levels %s are not strictly ordered or > and > equality > relational > additive > multiplicative (a lower level binds tighter)' % dict(zip(['/'.join(t) for t in JP_PREC_ORDER], levels)), None)
+    else: chk.ok('R12.6', 'include/jsoncons_ext/jsonpath/token_evaluator.hpp precedence order', {'levels': clean})
+
 def run(chk, tier, only_rule=None):
     chk.explanation = EXPLANATION
     chk.not_decided = NOT_DECIDED
@@ -307,6 +389,7 @@ def run(chk, tier, only_rule=None):
     c05.r05_5(chk, tier)
     r12_3(chk, tier)
     r12_4(chk, facts)
+    r12_6(chk, facts)
     r12_5(chk, tier)
     c05.r05_6(chk, tier, units=['jsonpath'], floor=80)
     c05.r05_7(chk, tier, units=['jsonpath'], floor=100)
